@@ -114,7 +114,7 @@ func (p *c11) Bounds(tier string) map[string]interface{} {
 }
 
 var c11Places = []string{"leaf", "container", "list", "leaf-list", "choice", "case", "uses", "augment", "uses-augment", "refine", "two-if-features", "anydata", "rpc", "notification",
-	"case-in-augment", "leaf-in-augment-of-choice", "case-in-uses-augment", "case-in-grouping", "leaf-in-grouping", "action", "action-in-grouping", "notification-in-grouping", "leaf-in-submodule", "augment-in-submodule", "features-in-submodule", "both-in-submodule", "uses-in-augment", "uses-in-case", "choice-in-case", "action-in-augment", "notification-in-augment", "action-in-uses-augment", "notification-in-uses-augment", "action-in-submodule", "leaf-in-rpc-input", "leaf-in-notification", "leaf-in-action-output"}
+	"case-in-augment", "leaf-in-augment-of-choice", "case-in-uses-augment", "case-in-grouping", "leaf-in-grouping", "action", "action-in-grouping", "notification-in-grouping", "leaf-in-submodule", "augment-in-submodule", "features-in-submodule", "both-in-submodule", "uses-in-augment", "uses-in-case", "choice-in-case", "action-in-augment", "notification-in-augment", "action-in-uses-augment", "notification-in-uses-augment", "action-in-submodule", "leaf-in-rpc-input", "leaf-in-notification", "leaf-in-action-output", "refine-with-the-guard-of-its-target", "leaf-in-case-found-by-name", "leaf-in-nested-case-found-by-name", "container-in-case-found-by-name"}
 
 func (p *c11) Cases(tier string, emit func(interface{})) {
 	L := c11L(tier)
@@ -149,6 +149,7 @@ func (p *c11) Cases(tier string, emit func(interface{})) {
 	}
 	emit(c11Case{Part: "names"})
 	emit(c11Case{Part: "two-modules"})
+	emit(c11Case{Part: "deviation-copies"})
 	for i := range c11Deviations() {
 		emit(c11Case{Part: "deviation", Idx: i})
 	}
@@ -369,7 +370,7 @@ type c11Template struct {
 // c11Render builds the module (and submodule) text of a placement with the guard statement stmt.
 func c11Render(tp c11Template, stmt string) (string, map[string]string) {
 	if tp.sub == "" {
-		return c11Hdr + strings.Replace(tp.text, "%s", stmt, 1), nil
+		return c11Hdr + strings.Replace(tp.text, "%s", stmt, -1), nil
 	}
 	feats := "feature a; feature b; feature c; "
 	hdr := `module f { namespace "urn:f"; prefix f; include fsub; revision 0; `
@@ -383,43 +384,47 @@ func c11Render(tp c11Template, stmt string) (string, map[string]string) {
 }
 
 var c11Templates = map[string]c11Template{
-	"leaf":                         {text: `leaf x { %s type string; } leaf keep { type string; } }`, probe: "x"},
-	"container":                    {text: `container x { %s leaf y { type string; } } leaf keep { type string; } }`, probe: "x"},
-	"list":                         {text: `list x { %s key k; leaf k { type string; } } leaf keep { type string; } }`, probe: "x"},
-	"leaf-list":                    {text: `leaf-list x { %s type string; } leaf keep { type string; } }`, probe: "x"},
-	"choice":                       {text: `choice x { %s case k { leaf y { type string; } } } leaf keep { type string; } }`, probe: "x"},
-	"case":                         {text: `choice ch { case x { %s leaf y { type string; } } case k { leaf z { type string; } } } leaf keep { type string; } }`, probe: "ch/x"},
-	"uses":                         {text: `grouping g { leaf x { type string; } } container u { uses g { %s } leaf keep { type string; } } }`, probe: "u/x"},
-	"augment":                      {text: `container u { leaf keep { type string; } } augment "/u" { %s leaf x { type string; } } }`, probe: "u/x"},
-	"uses-augment":                 {text: `grouping g { container gc { leaf keep { type string; } } } container u { uses g { augment gc { %s leaf x { type string; } } } } }`, probe: "u/gc/x"},
-	"refine":                       {text: `grouping g { leaf x { type string; } leaf keep { type string; } } container u { uses g { refine x { %s description "refined"; } refine keep { description "also"; } } } }`, probe: "refine"},
-	"two-if-features":              {text: `leaf x { %s type string; } leaf keep { type string; } }`, probe: "x"},
-	"anydata":                      {text: `anydata x { %s } leaf keep { type string; } }`, probe: "x"},
-	"rpc":                          {text: `rpc x { %s } leaf keep { type string; } }`, probe: "x"},
-	"notification":                 {text: `notification x { %s } leaf keep { type string; } }`, probe: "x"},
-	"case-in-augment":              {text: `choice ch { case k { leaf z { type string; } } } leaf keep { type string; } augment "/ch" { case x { %s leaf y { type string; } } } }`, probe: "ch/x"},
-	"leaf-in-augment-of-choice":    {text: `choice ch { case k { leaf z { type string; } } } leaf keep { type string; } augment "/ch" { leaf x { %s type string; } } }`, probe: "ch/x"},
-	"case-in-uses-augment":         {text: `grouping g { choice ch { case k { leaf z { type string; } } } } container u { uses g { augment ch { case x { %s leaf y { type string; } } } } leaf keep { type string; } } }`, probe: "u/ch/x"},
-	"case-in-grouping":             {text: `grouping g { choice ch { case x { %s leaf y { type string; } } case k { leaf z { type string; } } } } container u { uses g; leaf keep { type string; } } }`, probe: "u/ch/x"},
-	"leaf-in-grouping":             {text: `grouping g { container gc { leaf x { %s type string; } leaf keep { type string; } } } container u { uses g; } }`, probe: "u/gc/x"},
-	"action":                       {text: `container u { action x { %s } leaf keep { type string; } } }`, probe: "u/x"},
-	"action-in-grouping":           {text: `grouping g { action x { %s } leaf keep { type string; } } container u { uses g; } }`, probe: "u/x"},
-	"notification-in-grouping":     {text: `grouping g { notification x { %s } leaf keep { type string; } } container u { uses g; } }`, probe: "u/x"},
-	"leaf-in-submodule":            {text: `leaf keep { type string; } }`, probe: "x", sub: `leaf x { %s type string; } `},
-	"augment-in-submodule":         {text: `container u { leaf keep { type string; } } }`, probe: "u/x", sub: `augment "/u" { %s leaf x { type string; } } `},
-	"features-in-submodule":        {text: `leaf x { %s type string; } leaf keep { type string; } }`, probe: "x", sub: `leaf subkeep { type string; } `, subFeatures: true},
-	"both-in-submodule":            {text: `leaf keep { type string; } }`, probe: "x", sub: `leaf x { %s type string; } `, subFeatures: true},
-	"action-in-augment":            {text: `container u { leaf keep { type string; } } augment "/u" { action x { %s } } }`, probe: "u/x"},
-	"notification-in-augment":      {text: `container u { leaf keep { type string; } } augment "/u" { notification x { %s } } }`, probe: "u/x"},
-	"action-in-uses-augment":       {text: `grouping g { container gc { leaf keep { type string; } } } container u { uses g { augment gc { action x { %s } } } } }`, probe: "u/gc/x"},
-	"notification-in-uses-augment": {text: `grouping g { container gc { leaf keep { type string; } } } container u { uses g { augment gc { notification x { %s } } } } }`, probe: "u/gc/x"},
-	"action-in-submodule":          {text: `leaf keep { type string; } }`, probe: "x", sub: `rpc x { %s } `},
-	"leaf-in-rpc-input":            {text: `rpc r { input { leaf x { %s type string; } leaf keep { type string; } } } }`, probe: "r/input/x"},
-	"leaf-in-action-output":        {text: `container u { action r { output { leaf x { %s type string; } leaf keep { type string; } } } } }`, probe: "u/r/output/x"},
-	"leaf-in-notification":         {text: `notification n { leaf x { %s type string; } leaf keep { type string; } } }`, probe: "n/x"},
-	"uses-in-augment":              {text: `grouping g { leaf x { type string; } } container u { leaf keep { type string; } } augment "/u" { uses g { %s } } }`, probe: "u/x"},
-	"uses-in-case":                 {text: `grouping g { leaf x { type string; } } choice ch { case k { uses g { %s } leaf keep { type string; } } } }`, probe: "ch/k/x"},
-	"choice-in-case":               {text: `choice ch { case k { choice x { %s leaf y { type string; } } leaf keep { type string; } } } }`, probe: "ch/k/x"},
+	"leaf":                                {text: `leaf x { %s type string; } leaf keep { type string; } }`, probe: "x"},
+	"container":                           {text: `container x { %s leaf y { type string; } } leaf keep { type string; } }`, probe: "x"},
+	"list":                                {text: `list x { %s key k; leaf k { type string; } } leaf keep { type string; } }`, probe: "x"},
+	"leaf-list":                           {text: `leaf-list x { %s type string; } leaf keep { type string; } }`, probe: "x"},
+	"choice":                              {text: `choice x { %s case k { leaf y { type string; } } } leaf keep { type string; } }`, probe: "x"},
+	"case":                                {text: `choice ch { case x { %s leaf y { type string; } } case k { leaf z { type string; } } } leaf keep { type string; } }`, probe: "ch/x"},
+	"uses":                                {text: `grouping g { leaf x { type string; } } container u { uses g { %s } leaf keep { type string; } } }`, probe: "u/x"},
+	"augment":                             {text: `container u { leaf keep { type string; } } augment "/u" { %s leaf x { type string; } } }`, probe: "u/x"},
+	"uses-augment":                        {text: `grouping g { container gc { leaf keep { type string; } } } container u { uses g { augment gc { %s leaf x { type string; } } } } }`, probe: "u/gc/x"},
+	"refine":                              {text: `grouping g { leaf x { type string; } leaf keep { type string; } } container u { uses g { refine x { %s description "refined"; } refine keep { description "also"; } } } }`, probe: "refine"},
+	"two-if-features":                     {text: `leaf x { %s type string; } leaf keep { type string; } }`, probe: "x"},
+	"anydata":                             {text: `anydata x { %s } leaf keep { type string; } }`, probe: "x"},
+	"rpc":                                 {text: `rpc x { %s } leaf keep { type string; } }`, probe: "x"},
+	"notification":                        {text: `notification x { %s } leaf keep { type string; } }`, probe: "x"},
+	"case-in-augment":                     {text: `choice ch { case k { leaf z { type string; } } } leaf keep { type string; } augment "/ch" { case x { %s leaf y { type string; } } } }`, probe: "ch/x"},
+	"leaf-in-augment-of-choice":           {text: `choice ch { case k { leaf z { type string; } } } leaf keep { type string; } augment "/ch" { leaf x { %s type string; } } }`, probe: "ch/x"},
+	"case-in-uses-augment":                {text: `grouping g { choice ch { case k { leaf z { type string; } } } } container u { uses g { augment ch { case x { %s leaf y { type string; } } } } leaf keep { type string; } } }`, probe: "u/ch/x"},
+	"case-in-grouping":                    {text: `grouping g { choice ch { case x { %s leaf y { type string; } } case k { leaf z { type string; } } } } container u { uses g; leaf keep { type string; } } }`, probe: "u/ch/x"},
+	"leaf-in-grouping":                    {text: `grouping g { container gc { leaf x { %s type string; } leaf keep { type string; } } } container u { uses g; } }`, probe: "u/gc/x"},
+	"action":                              {text: `container u { action x { %s } leaf keep { type string; } } }`, probe: "u/x"},
+	"action-in-grouping":                  {text: `grouping g { action x { %s } leaf keep { type string; } } container u { uses g; } }`, probe: "u/x"},
+	"notification-in-grouping":            {text: `grouping g { notification x { %s } leaf keep { type string; } } container u { uses g; } }`, probe: "u/x"},
+	"leaf-in-submodule":                   {text: `leaf keep { type string; } }`, probe: "x", sub: `leaf x { %s type string; } `},
+	"augment-in-submodule":                {text: `container u { leaf keep { type string; } } }`, probe: "u/x", sub: `augment "/u" { %s leaf x { type string; } } `},
+	"features-in-submodule":               {text: `leaf x { %s type string; } leaf keep { type string; } }`, probe: "x", sub: `leaf subkeep { type string; } `, subFeatures: true},
+	"both-in-submodule":                   {text: `leaf keep { type string; } }`, probe: "x", sub: `leaf x { %s type string; } `, subFeatures: true},
+	"action-in-augment":                   {text: `container u { leaf keep { type string; } } augment "/u" { action x { %s } } }`, probe: "u/x"},
+	"notification-in-augment":             {text: `container u { leaf keep { type string; } } augment "/u" { notification x { %s } } }`, probe: "u/x"},
+	"action-in-uses-augment":              {text: `grouping g { container gc { leaf keep { type string; } } } container u { uses g { augment gc { action x { %s } } } } }`, probe: "u/gc/x"},
+	"notification-in-uses-augment":        {text: `grouping g { container gc { leaf keep { type string; } } } container u { uses g { augment gc { notification x { %s } } } } }`, probe: "u/gc/x"},
+	"action-in-submodule":                 {text: `leaf keep { type string; } }`, probe: "x", sub: `rpc x { %s } `},
+	"leaf-in-rpc-input":                   {text: `rpc r { input { leaf x { %s type string; } leaf keep { type string; } } } }`, probe: "r/input/x"},
+	"leaf-in-action-output":               {text: `container u { action r { output { leaf x { %s type string; } leaf keep { type string; } } } } }`, probe: "u/r/output/x"},
+	"leaf-in-notification":                {text: `notification n { leaf x { %s type string; } leaf keep { type string; } } }`, probe: "n/x"},
+	"refine-with-the-guard-of-its-target": {text: `grouping g { leaf x { %s type string; } leaf keep { type string; } } container u { uses g { refine x { %s description "refined"; } } } }`, probe: "u/x"},
+	"leaf-in-case-found-by-name":          {text: `container u { choice ch { case k { leaf x { %s type string; } leaf keep { type string; } } } } }`, probe: "u/x"},
+	"leaf-in-nested-case-found-by-name":   {text: `container u { choice ch { case k { choice in { case j { leaf x { %s type string; } } } leaf keep { type string; } } } } }`, probe: "u/x"},
+	"container-in-case-found-by-name":     {text: `container u { choice ch { case k { container x { %s leaf y { type string; } } leaf keep { type string; } } } } }`, probe: "u/x"},
+	"uses-in-augment":                     {text: `grouping g { leaf x { type string; } } container u { leaf keep { type string; } } augment "/u" { uses g { %s } } }`, probe: "u/x"},
+	"uses-in-case":                        {text: `grouping g { leaf x { type string; } } choice ch { case k { uses g { %s } leaf keep { type string; } } } }`, probe: "ch/k/x"},
+	"choice-in-case":                      {text: `choice ch { case k { choice x { %s leaf y { type string; } } leaf keep { type string; } } } }`, probe: "ch/k/x"},
 }
 
 func c11Probe(m *meta.Module, place string) (present bool, extra string) {
@@ -649,6 +654,8 @@ func (p *c11) Run(raw json.RawMessage) eng.Result {
 		c11Names(&res, ss)
 	case "two-modules":
 		c11TwoModules(&res, ss)
+	case "deviation-copies":
+		c11DeviationCopies(&res, ss)
 	case "deviation":
 		c11RunDeviation(c.Idx, &res, ss)
 	}
@@ -779,6 +786,77 @@ func c11TwoModules(res *eng.Result, ss *sigSet) {
 						}
 					}
 				}
+			}
+		}
+	}
+}
+
+// c11DeviationCopies: a grouping used twice; a deviation of one copy changes that copy only, also
+// for the properties held in slices (unique, must, leaf-list defaults), in either order of the two.
+func c11DeviationCopies(res *eng.Result, ss *sigSet) {
+	const body = `grouping g { list l { key k; unique "a"; unique "b"; unique "c"; must "m1"; must "m2"; must "m3"; leaf k { type string; } leaf a { type string; } leaf b { type string; } leaf c { type string; } leaf d { type string; } leaf e { type string; } }
+    leaf-list ll { type string; default "x"; default "y"; default "z"; } leaf lf { type string; must "n1"; must "n2"; must "n3"; } }
+  container p { uses g; } container q { uses g; } container r { uses g; } `
+	type dv struct{ name, first, second string }
+	devs := []dv{
+		{"unique", `deviation "/p/l" { deviate add { unique "d"; } }`, `deviation "/q/l" { deviate add { unique "e"; } }`},
+		{"must-on-list", `deviation "/p/l" { deviate add { must "pm"; } }`, `deviation "/q/l" { deviate add { must "qm"; } }`},
+		{"must-on-leaf", `deviation "/p/lf" { deviate add { must "pm"; } }`, `deviation "/q/lf" { deviate add { must "qm"; } }`},
+		{"leaf-list-default", `deviation "/p/ll" { deviate add { default "pd"; } }`, `deviation "/q/ll" { deviate add { default "qd"; } }`},
+		{"delete-unique", `deviation "/p/l" { deviate delete { unique "a"; } }`, `deviation "/q/l" { deviate delete { unique "c"; } }`},
+		{"delete-must", `deviation "/p/lf" { deviate delete { must "n1"; } }`, `deviation "/q/lf" { deviate delete { must "n3"; } }`},
+	}
+	load := func(devText string) (model.Dump, string) {
+		m, err, fr, msg := c11Load(`module dc { namespace "urn:dc"; prefix dc; revision 0; `+body+devText+`}`, nil, nil)
+		if fr != "" {
+			return nil, "panic:" + fr + " " + msg
+		}
+		if err != nil {
+			return nil, "load-error " + err.Error()
+		}
+		return model.DumpModule(m, model.FullDump()), ""
+	}
+	base, bad := load("")
+	if bad != "" {
+		panic("harness: " + bad)
+	}
+	under := func(d model.Dump, prefix string) []string {
+		var out []string
+		for _, line := range d {
+			if strings.HasPrefix(line, prefix+"/") || strings.HasPrefix(line, prefix+":") {
+				out = append(out, strings.TrimPrefix(line, prefix))
+			}
+		}
+		return out
+	}
+	for _, d := range devs {
+		for _, order := range []string{"first-then-second", "second-then-first"} {
+			text := d.first + " " + d.second
+			if order == "second-then-first" {
+				text = d.second + " " + d.first
+			}
+			res.Evals++
+			res.Nontriv++
+			site := "C11/deviation-copies/" + d.name + "/" + order
+			both, bad := load(text)
+			if bad != "" {
+				ss.add(site+"/"+strings.SplitN(bad, " ", 2)[0], bad)
+				continue
+			}
+			onlyP, _ := load(d.first)
+			onlyQ, _ := load(d.second)
+			// the third copy is untouched, and each deviated copy looks as if the other deviation did not exist
+			if a, b := strings.Join(under(both, "/r"), "\n"), strings.Join(under(base, "/r"), "\n"); a != b {
+				ss.add(site+"/undeviated-copy-changed", fmt.Sprintf("%s: /r differs from the undeviated module", text))
+			}
+			if a, b := strings.Join(under(both, "/p"), "\n"), strings.Join(under(onlyP, "/p"), "\n"); a != b {
+				ss.add(site+"/first-copy-sees-other-deviation", fmt.Sprintf("%s: /p differs from /p with only its own deviation:\n%s\nvs\n%s", text, a, b))
+			}
+			if a, b := strings.Join(under(both, "/q"), "\n"), strings.Join(under(onlyQ, "/q"), "\n"); a != b {
+				ss.add(site+"/second-copy-sees-other-deviation", fmt.Sprintf("%s: /q differs from /q with only its own deviation:\n%s\nvs\n%s", text, a, b))
+			}
+			if a, b := strings.Join(under(onlyP, "/q"), "\n"), strings.Join(under(base, "/q"), "\n"); a != b {
+				ss.add(site+"/deviation-of-one-copy-changes-another", fmt.Sprintf("%s alone: /q differs from the undeviated module", d.first))
 			}
 		}
 	}
